@@ -1008,6 +1008,8 @@ class ElectrumX(SessionBase):
         self.subscribe_headers = False
         self.connection.max_response_size = self.env.max_send
         self.hashX_subs = {}
+        # hashX -> list of "notified meanwhile" flags, one per subscription request in flight
+        self._subscribing = {}
         self.sv_seen = False
         self.mempool_statuses = {}
         self.set_request_handlers(self.PROTOCOL_MIN)
@@ -1088,6 +1090,11 @@ class ElectrumX(SessionBase):
             await self.send_notification('blockchain.headers.subscribe', args)
 
         touched = touched.intersection(self.hashX_subs)
+        # Subscriptions still being set up are told to compute their status again instead
+        for hashX in (self._subscribing if height_changed else touched.intersection(self._subscribing)):
+            for notified in self._subscribing[hashX]:
+                notified[0] = True
+        touched = touched.difference(self._subscribing)
         if touched or (height_changed and self.mempool_statuses):
             changed = {}
 
@@ -1193,10 +1200,28 @@ class ElectrumX(SessionBase):
                 if (utxo.tx_hash, utxo.tx_pos) not in spends]
 
     async def hashX_subscribe(self, hashX, alias):
-        # Store the subscription only after address_status succeeds
-        result = await self.address_status(hashX)
+        # Register the subscription before the status is computed, and compute it again if the
+        # hashX was notified meanwhile: otherwise a change arriving while the history is being
+        # read is neither in the status returned nor ever notified.  The subscription is
+        # removed again if address_status fails.
         self.hashX_subs[hashX] = alias
-        return result
+        notified = [False]
+        self._subscribing.setdefault(hashX, []).append(notified)
+        try:
+            while True:
+                result = await self.address_status(hashX)
+                if not notified[0]:
+                    return result
+                notified[0] = False
+        except RPCError:
+            self.unsubscribe_hashX(hashX)
+            raise
+        finally:
+            flags = [flag for flag in self._subscribing[hashX] if flag is not notified]
+            if flags:
+                self._subscribing[hashX] = flags
+            else:
+                del self._subscribing[hashX]
 
     async def get_balance(self, hashX):
         utxos = await self.db.all_utxos(hashX)
